@@ -74,7 +74,8 @@ def _requests(g, size, buf):
     pts = boundaries(size, bs, buf, max(0, (at - 1) * bs), size) if at else boundaries(size, bs, buf)
     if g.get("big"):
         reqs = request_pairs(pts, 2 * buf + 1024)
-        reqs += [(0, size), (0, 2 * bs), (bs // 2, 2 * bs), (bs - 512, bs + 1024), (bs, size), (1, size - 2)]
+        reqs += [(0, size), (0, 2 * bs), (bs // 2, 2 * bs), (bs - 512, bs + 1024), (bs, size), (1, size - 2), (512, bs - 1024),
+                 (bs + 4096, bs - 4096)]
     else:
         reqs = request_pairs(pts)
     spts = sorted({p // 512 for p in pts if p <= size} | {(p + 511) // 512 for p in pts if p + 511 <= size})
